@@ -71,12 +71,24 @@ def walk : Nat → Nat → Sys → List String → Option (List String)
   | 0, _, s, acc => if allDone s then some acc.reverse else none
   | fuel + 1, r, s, acc =>
     if allDone s then some acc.reverse else
+    -- declared domain of the replay: at most one writer is between file creation and Close at a
+    -- time (two at once — possible only after a stale release — share `<name>.tmp` and replace each
+    -- other's inodes; the model abstracts file identity, the proved witnesses cover that regime)
+    let busy (i : Nat) : Bool := (List.range s.n).any fun j => j != i &&
+      (match (s.threads j).pc with | .write _ => true | .close _ _ => true | _ => false)
+    let allowed (a : Actor) : Bool :=
+      match a with
+      | .thread i => !(match (s.threads i).pc with | .whCreate _ => busy i | _ => false)
+      | _ => true
     let cands : List Actor :=
-      ((List.range s.n).map Actor.thread ++ [Actor.notifier]).filter (fun a => (step s a).isSome)
+      ((List.range s.n).map Actor.thread ++ [Actor.notifier]).filter (fun a => (step s a).isSome && allowed a)
     -- clock and origin move rarely, and only while something is still going on
     let r1 := nextRand r
     let extra : List Actor :=
-      (if r1 % 11 = 0 ∧ (step s Actor.expire).isSome then [Actor.expire] else []) ++
+      -- (entry expiry is not combined with an origin body read error: the clean-up Delete of a failed
+      --  fill racing a revalidation of the same name is outside the replayed domain)
+      (if r1 % 11 = 0 ∧ (step s Actor.expire).isSome ∧
+          ¬ ((List.range s.n).any fun i => (s.threads i).fault == Fault.readErr) then [Actor.expire] else []) ++
       (if r1 % 17 = 0 then [Actor.originChange] else [])
     let cs := cands ++ extra
     match cs with
